@@ -104,6 +104,11 @@ func c18Create(r *R) {
 			r.c.Check(strings.Contains(id, "ID:tid") && strings.Contains(id, "Initiator:initiator"), "C18.3", "Begin/identifier", r.p.InstrPos(bg), "begun under the channel id", "the state machine is begun under "+id)
 		}
 	}
+	// only the confirmed sites may end (fail / cancel) a channel: a failed request
+	// for an id that already exists must not reach the existing channel
+	r.onlyCallers("C18.3", "(*channels.Channels).Error", 5, "(*impl.manager).OnChannelCompleted", "(*impl.manager).OnResponseReceived", "(*impl.manager).recordRejectedValidationEvents",
+		"(*impl.manager).OpenPushDataChannel", "(*impl.manager).OpenPullDataChannel", "(*impl.manager).CloseDataTransferChannelWithError")
+	r.onlyCallers("C18.3", "(*channels.Channels).Cancel", 3, "(*impl.manager).OnRequestReceived", "(*impl.manager).OnResponseReceived", "(*impl.manager).CloseDataTransferChannel")
 	// callers stop on the error before any other effect
 	effects := []string{"(*channels.Channels).Open", "(network.DataTransferNetwork).SendMessage", "(datatransfer.Transport).OpenChannel", "(*transportoptions.TransportOptions).SetOptions",
 		"(*channelsubscriptions.ChannelSubscriptions).Subscribe", "(network.DataTransferNetwork).Protect", "(*channels.Channels).Accept", "(*channelmonitor.Monitor).AddPushChannel", "(*channelmonitor.Monitor).AddPullChannel"}
